@@ -95,12 +95,10 @@ class Run(object):
                     return False
         hk = ' '.join('%s=%s' % (k, v) for k, v in sorted(sig.items()) if isinstance(v, (str, int, bool)) and k not in ('got', 'want', 'line', 'detail', 'property', 'query', 'plain_query', 'msg') and len(str(v)) < 60)
         self.sig_hist[hk] = self.sig_hist.get(hk, 0) + 1
-        if self.sig_hist[hk] > 3 and len(self.violations) >= 10:
+        if self.sig_hist[hk] > 3 or len(self.sig_hist) > 300:
             self.violations.append((sig, None))
-        elif len(self.violations) < 200:
-            self.violations.append((sig, case))
         else:
-            self.violations.append((sig, None))
+            self.violations.append((sig, case))
         return True
 
     def finish(self):
